@@ -5,6 +5,7 @@
 -/
 import PyGqlModel.Props.C05_overlap
 import PyGqlModel.Props.C05_executed
+import PyGqlModel.Spec.DocChecks
 
 set_option linter.unusedSimpArgs false
 set_option linter.unusedVariables false
@@ -15,23 +16,6 @@ open PyGql.Validate (Node)
 open PyGql.Validate.Spec (SelSet nodes selNodes selsNodes)
 
 /-! ### a computable form of `AliasesNonEmpty` -/
-
-mutual
-def selAliasB : Validate.Sel → Bool
-  | .field al _ _ _ _ _ sub => al != some "" && selsAliasB sub
-  | .spread _ _ => true
-  | .inline _ _ _ sub => selsAliasB sub
-def selsAliasB : List Validate.Sel → Bool
-  | [] => true
-  | x :: xs => selAliasB x && selsAliasB xs
-end
-
-/-- no field of the document has the empty alias -/
-def aliasesB (d : Validate.Doc) : Bool :=
-  d.defs.all fun
-    | .op _ _ _ _ _ sels => selsAliasB sels
-    | .frag _ _ _ _ sels => selsAliasB sels
-    | .ts .. => true
 
 private theorem selsAliasB_mem : ∀ (xs : List Validate.Sel) (x : Validate.Sel), selsAliasB xs = true → x ∈ xs → selAliasB x = true
   | [], _, _, h => by simp at h
@@ -133,7 +117,36 @@ theorem accepted_cannot_go_wrong_merged_executed (s : SchemaD) (hchk : schemaChe
     (rootsAreObjects_of_check _ hr) (fieldOwners_of_check _ hfo) fx hv11 h7 env d vars hacc hck hne
     (aliasesNonEmpty_of_check d hal) hni w (worldTyped_withBuiltins s w hw) op fuel cf cls
 
+/-! ### every document-side hypothesis as ONE computable check -/
+
+theorem noIntrospection_of_check (s : SchemaD) (d : Validate.Doc) (h : noIntrospectionB d = true) : NoIntrospection s d := by
+  intro p hp name args dirs hs e
+  have hm := Validate.typed_node_mem hp
+  unfold noIntrospectionB at h
+  rw [List.all_eq_true] at h
+  have := h _ hm
+  rw [e] at this
+  simpa using this
+
+/-- **accepted_cannot_go_wrong_computable** — the execution half of C05 with EVERY hypothesis except `WorldTyped` (which
+    is part of the property statement) a computable check: `schemaChecksB` / `fieldOwnersB` on the schema (evaluated by the
+    driver on every request), `docChecksB` on the document, the code variant (`fx.v7`, `fx.v11`: probed by the harness on
+    the tree under test), and "all 26 rule visitors silent" (the validator model, the memoised overlap search). -/
+theorem accepted_cannot_go_wrong_computable (s : SchemaD) (hchk : schemaChecksB (withBuiltins s) = true)
+    (hfo : fieldOwnersB (withBuiltins s) = true)
+    (fx : Validate.Fixes) (hv11 : fx.v11 = true) (h7 : fx.v7 = true) (env : Exec.ArgEnv) (d : Validate.Doc) (vars : Exec.Vars)
+    (hacc : ∀ r ∈ Validate.Rule.all, C06.SilentM (withBuiltins s) fx r d) (hd : docChecksB d = true)
+    (w : Exec.World) (hw : WorldTyped s w) :
+    ∀ (op : Option String) (fuel cf : Nat) (cls : String),
+      Exec.execute s (eDoc (withBuiltins s) env d) vars w op fuel cf ≠ .failed (.internal cls) := by
+  unfold docChecksB at hd
+  simp only [Bool.and_eq_true, List.all_eq_true, bne_iff_ne, ne_eq] at hd
+  obtain ⟨⟨⟨⟨hid, hmeta⟩, hal⟩, hnames⟩, hni⟩ := hd
+  exact accepted_cannot_go_wrong_merged_executed s hchk hfo fx hv11 h7 env d vars hacc ⟨hid, hmeta⟩ hal hnames
+    (noIntrospection_of_check _ d hni) w hw
+
 /-! non-vacuity: the static checks on the example document of `Props/C05_overlap.lean` -/
+example : docChecksB (mgDoc .null) = true := by decide
 example : aliasesB (mgDoc .null) = true := by decide
 example : fieldOwnersB (withBuiltins brSchemaQ) = true ∧ schemaChecksB (withBuiltins brSchemaQ) = true := by decide
 
